@@ -17,13 +17,29 @@
 (*   outside, and prints one CASE per (axis, map, placement).  The harness *)
 (*   turns each CASE into fvar/avar bytes and calls FvarTable::normalize;  *)
 (*   Trace_Normalize judges the outputs.                                   *)
+(* Round 3:                                                                *)
+(*  - "small" also runs over GENERAL segment maps (IsGenMap: records with  *)
+(*    from-coordinates beyond -1/+1, to-coordinates over the whole 2.14    *)
+(*    range, decreasing / flat segments, duplicate from-coordinates, maps  *)
+(*    without the -1/0/+1 records, one-record maps) on GenAxes;            *)
+(*  - "real" has a second family RealMaps2 x RealAxes2 of such maps at     *)
+(*    full width, with user values landing inside every segment (mid       *)
+(*    points), and a third family LayCases in which the fvar table has a   *)
+(*    different layout (axesArrayOffset, axisSize, instanceSize, instance  *)
+(*    count): TLC computes where every axis / instance record goes         *)
+(*    (Normalize!FvarAxisPos / FvarInstPos) and the harness writes the     *)
+(*    records there.                                                       *)
 (***************************************************************************)
 EXTENDS Normalize, Json, TLC, SequencesExt
 
 CONSTANTS FB,          \* fraction bits of the scaled-down "Fixed"
           SmallVals,   \* raw axis values of the scaled-down model
           MaxExtra,    \* interior knots per map in the scaled-down model
-          RealAxes, RealMaps
+          RealAxes, RealMaps,
+          GenLevel,    \* 0: no general maps in the scaled-down model, 1: quick families, 2: all families
+          GenFroms, GenTos, GenAxes,          \* records / axes of the general maps of the scaled-down model
+          RealAxes2, RealMaps2,               \* full width: general maps
+          LayAxes, LayMaps, Layouts           \* full width: fvar layouts
 
 VARIABLES c, done
 vars == <<c, done>>
@@ -45,19 +61,51 @@ KSets == {{}} \cup {{a} : a \in Knots}
 SmallMaps ==
   {<<>>} \cup {m \in {MapOf(K) : K \in {K \in KSets : DistinctFrom(K)}} : MapValid(SU, m)}
 
-SmallCases == {[kind |-> "small", ax |-> ax, avar |-> TRUE, map |-> m, place |-> 0] :
+SmallCases == {[kind |-> "small", ax |-> ax, avar |-> TRUE, map |-> m, place |-> 0, lay |-> <<16, 20, 0, 0>>] :
                   ax \in SmallAxes, m \in SmallMaps}
-          \cup {[kind |-> "small", ax |-> ax, avar |-> FALSE, map |-> <<>>, place |-> 0] : ax \in SmallAxes}
+          \cup {[kind |-> "small", ax |-> ax, avar |-> FALSE, map |-> <<>>, place |-> 0, lay |-> <<16, 20, 0, 0>>] :
+                  ax \in SmallAxes}
 
 \* ---- full-width universe -----------------------------------------------------------
 U14 == 16384
 I32Min == -2147483647 - 1
 I32Max == 2147483647
 
-RealCases == {[kind |-> "real", ax |-> ax, avar |-> TRUE, map |-> m, place |-> p] :
+\* a layout of the fvar table: <<axesArrayOffset, axisSize, 0 / 1 = without / with postScriptNameID, instances>>
+StdLayout == <<16, 20, 0, 0>>
+RealCases == {[kind |-> "real", ax |-> ax, avar |-> TRUE, map |-> m, place |-> p, lay |-> StdLayout] :
                   ax \in RealAxes, m \in RealMaps, p \in 0 .. 2}
-         \cup {[kind |-> "real", ax |-> ax, avar |-> FALSE, map |-> <<>>, place |-> p] :
+         \cup {[kind |-> "real", ax |-> ax, avar |-> FALSE, map |-> <<>>, place |-> p, lay |-> StdLayout] :
                   ax \in RealAxes, p \in {0, 1}}
+         \cup {[kind |-> "real", ax |-> ax, avar |-> TRUE, map |-> m, place |-> p, lay |-> StdLayout] :
+                  ax \in RealAxes2, m \in RealMaps2, p \in {0, 1}}
+         \cup {[kind |-> "real", ax |-> ax, avar |-> TRUE, map |-> m, place |-> p, lay |-> l] :
+                  ax \in LayAxes, m \in LayMaps, p \in 0 .. 2, l \in Layouts}
+         \cup {[kind |-> "real", ax |-> ax, avar |-> FALSE, map |-> <<>>, place |-> p, lay |-> l] :
+                  ax \in LayAxes, p \in {0, 2}, l \in Layouts}
+
+\* ---- scaled-down universe of general maps -----------------------------------------------
+GRecs == {<<f, t>> : f \in GenFroms, t \in GenTos}
+RLo == <<-SU, -SU>>
+RMid == <<0, 0>>
+RHi == <<SU, SU>>
+GenCase(ax, m) == [kind |-> "small", ax |-> ax, avar |-> TRUE, map |-> m, place |-> 0, lay |-> StdLayout]
+\* (a zero-width FIRST segment above -1 divides by zero below it: the 16.16 procedure saturates there,
+\*  the judge looks at the range only; such maps are left to the full-width part)
+FirstOK(a, b) == a[1] < b[1] \/ a[1] <= -SU
+IsGenCase(x) ==
+  /\ GenLevel >= 1
+  /\ \E ax \in GenAxes :
+       \/ \E a \in GRecs : x = GenCase(ax, <<a>>)
+       \/ \E a, b \in GRecs : a[1] <= b[1] /\ FirstOK(a, b) /\ x = GenCase(ax, <<a, b>>)
+       \/ \E a \in GRecs : -SU <= a[1] /\ a[1] <= SU /\ x = GenCase(ax, <<RLo, a, RHi>>)
+       \/ \E a \in GRecs : -SU <= a[1] /\ a[1] <= 0 /\ x = GenCase(ax, <<RLo, a, RMid, RHi>>)
+       \/ \E a \in GRecs : 0 <= a[1] /\ a[1] <= SU /\ x = GenCase(ax, <<RLo, RMid, a, RHi>>)
+       \/ /\ GenLevel >= 2
+          /\ \/ \E a, b \in GRecs : 0 <= a[1] /\ a[1] <= b[1] /\ b[1] <= SU /\ x = GenCase(ax, <<RLo, RMid, a, b, RHi>>)
+             \/ \E a, b \in GRecs : -SU <= a[1] /\ a[1] <= b[1] /\ b[1] <= 0 /\ x = GenCase(ax, <<RLo, a, b, RMid, RHi>>)
+             \/ \E a, b \in GRecs : a[1] <= b[1] /\ b[1] <= SU /\ FirstOK(a, b) /\ x = GenCase(ax, <<a, b, RHi>>)
+             \/ \E a, b \in GRecs : -SU <= a[1] /\ a[1] <= b[1] /\ x = GenCase(ax, <<RLo, a, b>>)
 
 \* user value whose default normalisation is (just at or below) f/U:  def + floor(f * span / U)
 PreImage(ax, f) ==
@@ -70,7 +118,10 @@ SafeAround(x) ==                                  \* stay inside i32
   IF x > I32Max - 2 THEN {x - 2, x - 1, x}
   ELSE IF x < I32Min + 2 THEN {x, x + 1, x + 2} ELSE Around(x)
 
+\* the records, fixed positions, and a position strictly inside every segment (midpoint, thirds)
 ProbeFroms(map) == {KnotF(map, k) : k \in 1 .. Len(map)} \cup {-U14, -8192, -1, 0, 1, 5461, 8192, U14}
+                   \cup {(KnotF(map, k) + KnotF(map, k + 1)) \div 2 : k \in 1 .. Len(map) - 1}
+                   \cup {(2 * KnotF(map, k) + KnotF(map, k + 1)) \div 3 : k \in 1 .. Len(map) - 1}
 
 RealValues(ax, map) ==
   UNION {SafeAround(PreImage(ax, f)) : f \in ProbeFroms(map)}
@@ -80,13 +131,18 @@ RealValues(ax, map) ==
 LessEq(a, b) == a < b
 
 ---------------------------------------------------------------------------
-Init == /\ c \in SmallCases \cup RealCases
+Init == /\ \/ c \in SmallCases \cup RealCases
+           \/ IsGenCase(c)
         /\ done = FALSE
 Next == /\ ~done /\ done' = TRUE /\ UNCHANGED c
 Spec == Init /\ [][Next]_vars
 
-Steep(m) == \E k \in 1 .. Len(m) - 1 : KnotT(m, k + 1) - KnotT(m, k) > KnotF(m, k + 1) - KnotF(m, k)
+Abs(x) == IF x < 0 THEN -x ELSE x
+Steep(m) == \E k \in 1 .. Len(m) - 1 : Abs(KnotT(m, k + 1) - KnotT(m, k)) > KnotF(m, k + 1) - KnotF(m, k)
 Flat(m)  == \E k \in 1 .. Len(m) - 1 : KnotT(m, k + 1) = KnotT(m, k)
+Decr(m)  == \E k \in 1 .. Len(m) - 1 : KnotT(m, k + 1) < KnotT(m, k)
+DupFrom(m) == \E k \in 1 .. Len(m) - 1 : KnotF(m, k + 1) = KnotF(m, k)
+ToBeyond(u, m) == \E k \in 1 .. Len(m) : KnotT(m, k) < -u \/ KnotT(m, k) > u
 
 \* ---- design invariants (scaled-down, exhaustive) ---------------------------------------
 SmallRange == (AMin(c.ax) - 2) .. (AMax(c.ax) + 2)
@@ -94,10 +150,13 @@ SmallOut(v) == RefNormalize(FB, c.ax, c.avar, c.map, v)
 
 DesignOK ==
   (done /\ c.kind = "small") =>        \* (checked on the successor state so that all workers share the load)
+    /\ MapJudged(c.map)
     /\ \A v \in SmallRange : Verdict(SU, c.ax, c.avar, c.map, v, SmallOut(v)) = ""
-    /\ \A v \in SmallRange : (v + 1 \in SmallRange) => SmallOut(v) <= SmallOut(v + 1)
+    /\ (~c.avar \/ MonotoneDemanded(SU, c.map)) =>
+          \A v \in SmallRange : (v + 1 \in SmallRange) => SmallOut(v) <= SmallOut(v + 1)
     \* the clauses are not vacuous: a wrong output is rejected
-    /\ Steep(c.map) \/ \A v \in SmallRange : Verdict(SU, c.ax, c.avar, c.map, v, SmallOut(v) + 3) # ""
+    /\ (Steep(c.map) \/ ~MapValid(SU, c.map))
+         \/ \A v \in SmallRange : Verdict(SU, c.ax, c.avar, c.map, v, SmallOut(v) + 3) # ""
 
 \* the real-width value sets really contain the ends of the axis
 RealOK ==
@@ -105,10 +164,30 @@ RealOK ==
     LET vs == RealValues(c.ax, c.map) IN {AMin(c.ax), ADef(c.ax), AMax(c.ax)} \subseteq vs
 
 \* ---- generator -------------------------------------------------------------------------
+\* the layout of the fvar table of a case with n axes: header fields and the position of every record
+LayoutOf(l, n) ==
+  LET isz == 4 * n + 4 + 2 * l[3] IN
+  [off |-> l[1], asz |-> l[2], isz |-> isz, ninst |-> l[4],
+   apos |-> [i \in 1 .. n |-> FvarAxisPos(l[1], l[2], i - 1)],
+   ipos |-> [j \in 1 .. l[4] |-> FvarInstPos(l[1], l[2], n, isz, j - 1)],
+   len |-> FvarLen(l[1], l[2], n, isz, l[4])]
+LayoutOK ==
+  (done /\ c.kind = "real") =>
+    LET y == LayoutOf(c.lay, c.place + 1) IN
+    /\ y.off >= 16 /\ y.asz >= 20 /\ FvarInstSizeOK(c.place + 1, y.isz)
+    /\ \A i \in 1 .. c.place : y.apos[i] + y.asz <= y.apos[i + 1]                 \* records do not overlap
+    /\ \A j \in 1 .. y.ninst : y.ipos[j] >= y.apos[c.place + 1] + y.asz /\ y.ipos[j] + y.isz <= y.len
 EmitCase ==
   (done /\ c.kind = "real") =>
     PrintT(<<"CASE", ToJson([ax |-> c.ax, avar |-> c.avar, map |-> c.map, place |-> c.place,
-                             vs |-> SetToSortSeq(RealValues(c.ax, c.map), LessEq)])>>)
+                             vs |-> SetToSortSeq(RealValues(c.ax, c.map), LessEq),
+                             lay |-> LayoutOf(c.lay, c.place + 1)])>>)
+
+\* the final clamp is the deciding step: the segment that holds the position leaves [-1, 1] there
+ClampDecides(cs, v) ==
+  /\ cs.avar /\ Len(cs.map) >= 2
+  /\ LET n == DefNorm(cs.ax, v) IN
+     \E k \in 1 .. Len(cs.map) - 1 : SegHolds(SU, cs.map, n, k) /\ SegClamped(SU, cs.map, n, k)
 
 \* vacuity counters for the scaled-down part, one line per state
 EmitStat ==
@@ -116,7 +195,10 @@ EmitStat ==
     PrintT(<<"STAT", ToJson([n |-> Cardinality(SmallRange),
                              knots |-> Len(c.map),
                              degenerate |-> (AMin(c.ax) = ADef(c.ax) \/ ADef(c.ax) = AMax(c.ax)),
-                             steep |-> Steep(c.map), flat |-> Flat(c.map)])>>)
+                             steep |-> Steep(c.map), flat |-> Flat(c.map),
+                             valid |-> MapValid(SU, c.map), decr |-> Decr(c.map), dup |-> DupFrom(c.map),
+                             beyond |-> ToBeyond(SU, c.map), mono |-> MonotoneDemanded(SU, c.map),
+                             clampdecides |-> Cardinality({v \in SmallRange : ClampDecides(c, v)})])>>)
 
 ---------------------------------------------------------------------------
 \* ---- constants for the configurations ---------------------------------------------------
@@ -152,6 +234,85 @@ RealAxesThorough == RealAxesQuickW \cup {
   <<F(-16384), 0, F(16383)>>, <<F(-32768), F(-32768), F(-1)>>, <<F(1), F(32767), F(32767)>>,
   <<0, 3, 7>>, <<F(300), F(301), F(1000)>>, <<F(-200), F(-100), F(-50)>>
 }
+
+\* ---- round 3: general maps, fvar layouts ---------------------------------------------------
+\* scaled-down (SU = 4 at FB = 4, 16 at FB = 6): from-coordinates from -1.25 to +1.25, to-coordinates over the
+\* whole range of the scaled-down "F2Dot14" (-2 .. 2 - 1 unit)
+GenFromsQuick == {-5, -4, -3, -1, 0, 2, 4, 5}
+GenTosQuick   == {-8, -5, -4, -1, 0, 3, 4, 7}
+GenAxesQuick  == {<<-16, 0, 16>>, <<-7, -2, 6>>}       \* every 16.16 position; positions that are truncated
+GenFromsThorough == {-20, -16, -9, -1, 0, 5, 16, 18}
+GenTosThorough   == {-32, -17, -16, -3, 0, 7, 16, 31}
+GenAxesThorough  == {<<-64, 0, 64>>, <<-21, -4, 33>>, <<0, 0, 5>>}
+
+\* full width.  to-coordinates beyond [-1, 1]: the final clamp decides
+M2Beyond == {
+  <<<<-U14, -U14>>, <<0, 0>>, <<8192, 20480>>, <<U14, U14>>>>,                                  \* 0.5 -> 1.25
+  <<<<-U14, -U14>>, <<-8192, -24576>>, <<0, 0>>, <<U14, U14>>>>,                                \* -0.5 -> -1.5
+  <<<<-U14, -U14>>, <<-4096, -32768>>, <<0, 0>>, <<4096, 32767>>, <<U14, U14>>>>,               \* the 2.14 extremes
+  <<<<-U14, -20000>>, <<0, 0>>, <<U14, 20000>>>>,                                               \* the ends themselves
+  <<<<-U14, -U14>>, <<0, 0>>, <<12288, 16385>>, <<U14, U14>>>>                                  \* one unit beyond
+}
+\* decreasing and flat segments, duplicate from-coordinates (steps up and down)
+M2Shape == {
+  <<<<-U14, -U14>>, <<0, 0>>, <<4096, 12288>>, <<8192, 4096>>, <<U14, U14>>>>,                  \* down between .25 and .5
+  <<<<-U14, -U14>>, <<-8192, -2048>>, <<-4096, -12288>>, <<0, 0>>, <<U14, U14>>>>,
+  <<<<-U14, U14>>, <<0, 0>>, <<U14, -U14>>>>,                                                   \* mirrored ends
+  <<<<-U14, -U14>>, <<0, 0>>, <<8192, 4096>>, <<8192, 12288>>, <<U14, U14>>>>,                  \* step up
+  <<<<-U14, -U14>>, <<0, 0>>, <<8192, 12288>>, <<8192, 4096>>, <<U14, U14>>>>,                  \* step down
+  <<<<-U14, -U14>>, <<-5461, -9000>>, <<-5461, -100>>, <<-5461, -3000>>, <<0, 0>>, <<U14, U14>>>>, \* three on one
+  <<<<-U14, -U14>>, <<-U14, -8192>>, <<0, 0>>, <<U14, 8192>>, <<U14, U14>>>>,                   \* duplicates at the ends
+  <<<<-U14, -U14>>, <<0, 0>>, <<0, 4096>>, <<5461, 4096>>, <<10923, 4096>>, <<U14, U14>>>>      \* step at 0, flat
+}
+\* without (some of) the -1 / 0 / +1 records, one record, from-coordinates beyond [-1, 1]
+M2Partial == {
+  <<<<0, 0>>, <<U14, U14>>>>,
+  <<<<0, 0>>, <<8192, 12288>>, <<U14, U14>>>>,
+  <<<<-U14, -U14>>, <<U14, U14>>>>,
+  <<<<-U14, -U14>>, <<4096, -4096>>, <<U14, U14>>>>,
+  <<<<-U14, -U14>>, <<0, 0>>>>,
+  <<<<-U14, -U14>>, <<0, 0>>, <<8192, 2048>>>>,
+  <<<<-8192, -4096>>, <<8192, 12288>>>>,
+  <<<<-8192, -8192>>, <<-8100, 0>>, <<8192, 8192>>>>,                                           \* narrow first segment
+  <<<<-U14, -8192>>, <<0, 4096>>, <<U14, 12288>>>>,                                             \* no fixed point
+  <<<<0, 0>>>>, <<<<0, 8192>>>>, <<<<U14, -U14>>>>, <<<<-U14, 0>>>>,
+  <<<<-24576, -U14>>, <<0, 0>>, <<24576, U14>>>>,
+  <<<<-32768, -32768>>, <<32767, 32767>>>>,
+  <<<<4096, 4096>>, <<4096, 8192>>, <<U14, U14>>>>                                              \* zero-width first segment
+}
+RealMaps2Quick == M2Beyond \cup M2Shape \cup M2Partial
+RealMaps2Thorough == RealMaps2Quick \cup {
+  <<<<-U14, -U14>>, <<-1, 32767>>, <<0, 0>>, <<1, -32768>>, <<U14, U14>>>>,
+  <<<<-U14, 32767>>, <<0, 0>>, <<U14, -32768>>>>,
+  <<<<-U14, -U14>>, <<0, 0>>, <<1, 1>>, <<2, 0>>, <<3, 3>>, <<U14, U14>>>>,
+  <<<<-U14, -U14>>, <<0, 0>>, <<16383, -16383>>, <<U14, U14>>>>,
+  <<<<-U14, -U14>>, <<-16383, 16383>>, <<0, 0>>, <<U14, U14>>>>,
+  <<<<-100, -100>>, <<100, 100>>>>,
+  <<<<-U14, -U14>>, <<0, 0>>, <<0, 0>>, <<U14, U14>>>>,
+  <<<<-U14, -U14>>, <<0, 100>>, <<0, -100>>, <<U14, U14>>>>
+}
+RealAxes2Quick == {
+  <<F(100), F(400), F(900)>>, <<4096000, F(100), F(100)>>, <<0, 1, 2>>, <<7, 65543, 19660807>>,
+  <<F(-16000), F(300), F(16383)>>
+}
+RealAxes2Thorough == RealAxes2Quick \cup {<<0, 0, F(100)>>, <<F(-20000), F(-20000), F(20000)>>, <<F(-1), 0, F(1)>>,
+                                          <<-65535, 1, 65537>>, <<F(8), F(14), F(144)>>}
+
+\* fvar layouts <<axesArrayOffset, axisSize, postScriptNameID, instances>>
+LayoutsQuick == {
+  <<16, 20, 1, 2>>, <<16, 20, 0, 3>>,                 \* standard header, with instances
+  <<20, 20, 0, 0>>, <<18, 20, 1, 1>>, <<36, 20, 0, 2>>, <<24, 20, 1, 3>>,     \* bytes between header and axis array
+  <<16, 24, 0, 0>>, <<16, 22, 1, 2>>, <<16, 40, 0, 3>>,                       \* wider axis records
+  <<20, 24, 1, 2>>, <<40, 36, 0, 1>>, <<17, 21, 1, 1>>                        \* both; odd offsets
+}
+LayoutsThorough == LayoutsQuick \cup {
+  <<16, 20, 0, 1>>, <<16, 20, 1, 5>>, <<32, 20, 1, 0>>, <<16, 28, 1, 1>>, <<56, 20, 0, 4>>, <<19, 23, 0, 2>>,
+  <<256, 20, 0, 1>>, <<16, 260, 1, 2>>
+}
+NotoLike == <<<<-U14, -U14>>, <<-10923, -13056>>, <<-5461, -8192>>, <<0, 0>>, <<3277, 1638>>, <<U14, U14>>>>
+LayMapsQuick == {NotoLike}
+LayAxesQuick == {<<F(100), F(400), F(900)>>, <<4096000, F(100), F(100)>>}
+LayAxesThorough == LayAxesQuick \cup {<<7, 65543, 19660807>>, <<F(-10), 0, 0>>}
 
 Identity3 == <<<<-U14, -U14>>, <<0, 0>>, <<U14, U14>>>>
 RealMapsQuick == {
